@@ -2,9 +2,10 @@ import WebPkg.Driver.OpsCbor
 import WebPkg.Driver.OpsMice
 import WebPkg.Driver.OpsSH
 import WebPkg.Driver.OpsSxg
+import WebPkg.Driver.OpsBundle
 open WebPkg.Driver
 
-def handlers : List (String → List String → Option String) := [handleCbor, handleMice, handleSH, handleSxg]
+def handlers : List (String → List String → Option String) := [handleCbor, handleMice, handleSH, handleSxg, handleBundle]
 
 def dispatch (op : String) (args : List String) : String :=
   match handlers.findSome? (fun h => h op args) with
